@@ -1,3 +1,3 @@
 From Verif Require Import Extract.Core.
 Require Import ExtrOcamlBasic.
-Extraction "core_model.ml" core_eval core_err core_concrete core_eval_disj.
+Extraction "core_model.ml" core_eval core_err core_concrete core_eval_disj core_eval_nest.
